@@ -21,3 +21,15 @@ Print Assumptions C11_survives_errors.
 Theorem C11_role_mutex : forall ops, (holders (fold_left role_step ops roleq0) <= 1)%nat.
 Proof. exact role_mutex. Qed.
 Print Assumptions C11_role_mutex.
+
+(* a wait of a background process — consume lag, error back-off, schedule — comes back cancelled only when its role was lost:
+   for EVERY world and process state, the scheduling step of a process whose role was not revoked while it was parked, under a
+   fault plan without lease-loss and crash faults, records no cancelled wait (66 frame lemmas over the whole of proc_op:
+   proofs/WaitFrame.v). Hence a wait that is cut short by the process itself shows as a cancelled wait the model cannot produce. *)
+From WF Require Import proofs.WaitFrame.
+Theorem C11_wait_cancelled_only_if_role_lost : forall c w inst u p,
+  plan_clean p ->
+  (match get_pstate w (inst, u) with PIdle => false | _ => existsb (procid_eqb (inst, u)) (w_lost w) end) = false ->
+  forall args out, ~ In (TCall KTW args EngineBase.RCancel out) (snd (run_op c w (OStep inst u p))).
+Proof. exact run_op_wait_cancelled. Qed.
+Print Assumptions C11_wait_cancelled_only_if_role_lost.
